@@ -1210,4 +1210,7 @@ func (x *fleetExec) reweightDirty(e engine.Event, nd *knode, sig string) {
 	if after.Zero != before.Zero*w {
 		x.fail("zero-and-count-scaled", sig, "the zero weight did not scale by the factor", fmt.Sprint(before.Zero*w), fmt.Sprint(after.Zero))
 	}
+	// totals beyond 2^53 are sums that round: the paginated store regroups them when a re-weighting turns
+	// its unit entries into page weights, so they scale only up to an ulp (DESIGN 15.4-24) - not compared
+	nd.twin = nil
 }
